@@ -568,7 +568,7 @@ class Aead(object):
             ct, tag = aead_encrypt_plain(t, aad, data(17))
             c = new_aead(t, pl, msg_len=17, assoc_len=5)
             c.update(aad)
-            full = (tag * 3)[:tl] if good else bytes(tl)
+            full = (tag * 40)[:tl] if good else bytes(tl)
             tv = S.T.view(tl, pl, full)
             try:
                 if mode == "SIV":
